@@ -60,7 +60,7 @@ from ._loaders_dumpers import (
     json_or_yaml_loader_exceptions,
     load_value,
 )
-from ._namespace import Namespace
+from ._namespace import Namespace, del_clash_mark
 from ._optionals import (
     capture_typing_extension_shadows,
     get_alias_target,
@@ -1358,6 +1358,7 @@ def discard_init_args_on_class_path_change(parser_or_action, prev_val, value):
         del_args = {}
         prev_val = subclass_spec_as_namespace(prev_val)
         for key, val in list(prev_val.init_args.__dict__.items()):
+            key = del_clash_mark(key)
             action = _find_action(parser, key)
             if action:
                 with parser_context(lenient_check=False, load_value_mode=parser.parser_mode):
